@@ -111,7 +111,7 @@ PROPS = {
                        "parse_ref, parse_rdlen}, Section::{first, count, next_section}: the parser never moves backwards or out of the "
                        "message, a record's RDATA window lies inside the message, each iterator yields at most `count` items and "
                        "nothing after its first error (fuse), and the skip loops terminate; Message::{question, answer, authority, additional, "
-                       "sections, header_counts} and QuestionSection::{new, next_section} on every message view of at least 12 octets: "
+                       "sections, header_counts, header, is_answer} and QuestionSection::{new, next_section, ==} on every message view of at least 12 octets: "
                        "their unwrap()s cannot fail (a record section other than the additional one always has a successor). Unit `optiter` (base/opt/mod.rs): "
                        "Opt::check_slice accepts exactly the well-framed option sequences of at most 65535 octets; "
                        "OptIter::{new, next_step, next}: total for every option type, a step consumes exactly one whole option "
@@ -420,7 +420,7 @@ PROPS = {
     "C15": {
         "level": "proof",
         "level_prefix": "Partial proof -- contracts discharged without bound on the mechanisms named below, not the whole statement (bounded stand-ins and what is left out are listed): ",
-        "units": ["queries"],
+        "units": ["queries", "sections"],
         "kani": [
             {"group": "repo_client", "name": "c15_queries_match_model_bounded", "kind": "bounded", "tier": "quick", "timeout": 600,
              "bound": "every sequence of 4 operations (insert / try_remove of any index / try_remove + insert_at) on an empty table, all values",
@@ -439,8 +439,12 @@ PROPS = {
                        "below curr occupied, at most 65535 slots so every index fits a 16-bit ID) is preserved by new/insert/insert_at/"
                        "try_remove; insert hands out only a slot that was free or new and leaves every other slot untouched (no "
                        "outstanding request loses or shares its ID), refuses exactly when 2*count > 65535, and its two expect() calls "
-                       "cannot fail; try_remove returns exactly the stored item and clears only that slot.",
-        "not_covered": "Everything about delivery: matching responses to requests (Message::is_answer), exactly-once completion, "
+                       "cannot fail; try_remove returns exactly the stored item and clears only that slot. The test every transport applies to an incoming "
+                       "message (unit sections, real text of base/message.rs): Message::is_answer says yes only for a response (QR set) that "
+                       "carries the query's ID and the query's question count, and QuestionSection's == (the loop over both question sections) "
+                       "terminates for any two messages and says equal only if both sections parse completely and have the same length -- so a "
+                       "reply with another ID, a query echoed back, or a reply with a missing or extra question is never handed to the caller as its answer.",
+        "not_covered": "Everything else about delivery: question-by-question equality inside is_answer rests on Question's == (names: C04), the header-only error reply rule of the transports, exactly-once completion, "
                        "timeouts, retries, reordering/duplication/loss, truncation fallback, the datagram/redundant/load-balancing "
                        "transports (async tasks over tokio; schedules are outside contract-based verification).",
         "assumptions": ["core::cmp::min is specified through vstd's OrdSpec"],
